@@ -64,7 +64,7 @@ CLAIMED = {
     "C10": dict(
         category="model_checking",
         technique="exhaustive enumeration of (valid state, query point, hint) triples through the real locate functions, judged by exact point-in-closed-simplex tests",
-        text="For every valid corpus state (batch-constructed, every valid flip-closure state up to a cap, incremental build, after each vertex removal) of every subset of the alphabets (D=2..5, both kernels): every point of the half-step refinement of the bounding grid extended by one cell (D<=3) plus all vertices, edge midpoints, cell and facet centroids and outward reflections through facets, with every hint class (none, live cells, a removed key, a foreign key), through locate and locate_with_stats. InsideCell(c) requires the point in c's closed simplex (exact arithmetic); Outside requires the point strictly outside every cell; the answer class must not depend on the hint; both entry points must agree.",
+        text="For every valid corpus state (batch-constructed, every valid flip-closure state up to a cap, incremental build, after each vertex removal) of every subset of the alphabets (D=2..5, both kernels): every point of the half-step refinement of the bounding grid extended by one cell (D<=3) plus all vertices, edge midpoints, cell and facet centroids and outward reflections through facets, with every hint class (none, live cells, a removed key, a foreign key), through locate and locate_with_stats. InsideCell(c) requires the point in c's closed simplex (exact arithmetic); Outside requires the point strictly outside every cell; the answer class (a containing cell / OnVertex, which names no cell / Outside) must not depend on the hint; both entry points must agree.",
         note="Quick tier uses 3 evenly spread live-cell hints per state (all cells in thorough). Queries with a non-zero facet determinant inside the tolerance band are skipped (none occur on the half-integer grids).",
         design_ref="DESIGN.md section 5 (C10)"),
     "C11": dict(
@@ -88,7 +88,7 @@ CLAIMED = {
     "C14": dict(
         category="model_checking",
         technique="exhaustive enumeration of input permutations x construction options with result-digest equality, brute-force unique-Delaunay reference, and all operation-granularity schedules of 4 operations on two real threads",
-        text="For every input of the families (general-position and degenerate sets, D=2..5, both kernels): every ordering x dedup x retry option is built twice in process, again in a freshly spawned thread, and (retry disabled) with random instead of deterministic UUIDs - the cell sets (as coordinate tuples) must be identical; for Hilbert / Morton / Lexicographic every permutation of the caller's slice (all n! for n <= 6) must give the same result; for exactly general-position sets every Ok result of any strategy / kernel and the incremental build must equal the brute-force unique Delaunay triangulation. Schedules: all 24 orders x 16 thread assignments of four operations (two batch builds, flip + repair_advanced, incremental inserts) on two persistent worker threads handing over between operations, compared with the sequential results; plus a child process of the same binary rebuilding a fixed list of inputs.",
+        text="For every input of the families (general-position and degenerate sets, D=2..5, both kernels): every ordering x dedup x retry option is built twice in process, again in a freshly spawned thread, and (retry disabled) with random instead of deterministic UUIDs - the cell sets (as coordinate tuples) must be identical; for Hilbert / Morton / Lexicographic every permutation of the caller's slice (all n! for n <= 6; near-duplicate pairs below the tolerance, alone and together with an outlier that pushes epsilon dedup onto its quantised / quadratic fallbacks) must give the same result; for exactly general-position sets every Ok result of any strategy / kernel and the incremental build must equal the brute-force unique Delaunay triangulation. Schedules: all 24 orders x 16 thread assignments of four operations (two batch builds, flip + repair_advanced, incremental inserts) on two persistent worker threads handing over between operations, compared with the sequential results; plus a child process of the same binary rebuilding a fixed list of inputs.",
         note="Schedules are explored at operation granularity only: the crate contains no lock, channel, condition or spawned thread; its only thread-affine state on a decision path is a recursion-guard thread-local, and the shared generation counter is a monotone fetch_add (DESIGN.md section 9). loom/shuttle have nothing to intercept.",
         design_ref="DESIGN.md section 5 (C14), section 9"),
     "C15": dict(
@@ -100,7 +100,7 @@ CLAIMED = {
     "C17": dict(
         category="exploration",
         technique="exhaustive enumeration of every Hilbert grid cell at small bit depths and of every vertex list over a tie-rich alphabet through every ordering / dedup implementation, with exact oracles",
-        text="Hilbert: every cell of the 2^(bD) grid for D=1..5 and every bit depth b with bD <= 20 (24 in thorough) through hilbert_indices_prequantized: the indices are a bijection onto [0, 2^(bD)) and consecutive indices are grid cells that differ by 1 in exactly one coordinate; hilbert_index at cell centres equals quantize-then-index. Orderings / dedup: every vertex list up to the stated length over the full product of a per-axis alphabet with signed zeros, a near-duplicate pair (1, 1+1e-11), 4e9 (coordinate/tolerance ratio beyond i64) and 1e300, with deterministic UUIDs and data, through the four ordering strategies (output must be a permutation of the input as a multiset of (UUID, coordinate bits, data)), the two public dedup helpers and the five private batch dedup implementations via guarded wrappers (exact: exactly one representative per distinct coordinate tuple; epsilon in {1e-10, 0.5}: survivors are input vertices, none twice, pairwise not within the tolerance, every dropped vertex within the tolerance of a survivor - exact distance comparisons).",
+        text="Hilbert: every cell of the 2^(bD) grid for D=1..5 and every bit depth b with bD <= 20 (24 in thorough) through hilbert_indices_prequantized: the indices are a bijection onto [0, 2^(bD)) and consecutive indices are grid cells that differ by 1 in exactly one coordinate; hilbert_index at cell centres equals quantize-then-index. Orderings / dedup: every vertex list up to the stated length over the full product of a per-axis alphabet with signed zeros, a near-duplicate pair (1, 1+1e-11), 4e9 (coordinate/tolerance ratio beyond i64) and 1e300, plus chain alphabets (0, 0.3, .., 1.2 with eps = 0.5: far-but-adjacent-cell, near, and tested vertex inside one neighbourhood of tolerance-sized cells, D=1..3), with deterministic UUIDs and data, through the four ordering strategies (output must be a permutation of the input as a multiset of (UUID, coordinate bits, data)), the two public dedup helpers and the five private batch dedup implementations via guarded wrappers (exact: exactly one representative per distinct coordinate tuple; epsilon in {1e-10, 0.5}: survivors are input vertices, none twice, pairwise not within the tolerance, every dropped vertex within the tolerance of a survivor - exact distance comparisons).",
         note="Epsilon claims exclude a 1% shell around the tolerance and lists containing 1e300 (distance overflow). Needs the verif-hooks wrappers for the private implementations.",
         design_ref="DESIGN.md section 4 (C17)"),
     "C18": dict(
